@@ -110,7 +110,7 @@ def report_input(ctx, tok, doc, text, why, origin):
 
 
 def classify(msg):
-    for needle, k in (("longest-first", "longest-first"), ("source slice", "positions"), ("not covered", "cover"),
+    for needle, k in (("unbalanced", "indent-balance"), ("longest-first", "longest-first"), ("source slice", "positions"), ("not covered", "cover"),
                       ("overlaps", "cover"), ("newline", "newline"), ("indentation level", "indent-mirror"),
                       ("Indent", "indent"), ("Dedent", "indent"), ("unbalanced", "indent-balance"),
                       ("classified", "classification"), ("Bad indentation", "bad-indent-spurious"),
